@@ -30,6 +30,25 @@ CLAIMS = {
              "by a World-level theorem.",
         technique="Lean 4 proof (simulation of the emulated walk against a kernel specification, fun_induction) + transcript replay + live-kernel openat2 oracle",
         ref="DESIGN.md §8 C01"),
+    "C02": dict(
+        text="Lean theorems (Props/C02.lean) over the relational semantics Runs, i.e. for every sequence of kernel answers and therefore "
+             "for every interleaving of attacker mutations with the library's system calls: a successful emulated lookup ends with a "
+             "passed check_current on the very descriptor it returns (or on the root duplicate followed by the O_PATH|O_NOFOLLOW open of "
+             "'.' beneath it) — the three /proc/thread-self/fd reads root, fd, root with Path-equal results; the bytes compared are the "
+             "kernel's readlinkat answers on the descriptor libpathrs' own verified procfs lookup returned; a passed check means the "
+             "printed path of fd is the root's components followed only by normal components (no '..'), and the root's path did not "
+             "change in between; invariant: the expected path never contains '', '.', '..' or '/'. Kernel backend: a result is the "
+             "answer of openat2(root, .., RESOLVE_IN_ROOT|RESOLVE_NO_MAGICLINKS|..), at most 16 openat2 calls, EAGAIN never "
+             "surfaces (SafetyViolation after the 16th). Tie and oracle: attacker-interposition suite — for generated and hand-made "
+             "trees/lookups with '..' and links, a mutation (move out of the root, replace by a link to a host dir/file, "
+             "RENAME_EXCHANGE with a tree or host entry, move up) is performed on the real filesystem by the interposer before every "
+             "system-call boundary of the lookup, permanently or undone at the next boundary; every schedule is replayed through the "
+             "model and the identity of the returned object (or link body) must be an inode of the tree or one the attacker put inside.",
+        note="Kernel facts the semantic conclusion rests on (DPathSound: the procfs magic-link prints where the open file is at the "
+             "instant of the read; RESOLVE_IN_ROOT confines the kernel's own walk) are exercised by the suite on the live kernel, not "
+             "proved. Schedules with more than one mutation (beyond flip-flop pairs) are covered by the theorems only.",
+        technique="Lean 4 proof (run inversion for all environments: every success is a checked descriptor) + deterministic attacker-interposition schedules",
+        ref="DESIGN.md §8 C02"),
     "C04": dict(
         text="Lean theorems (Props/C04.lean): both backends compute World.resolveInRoot (C01), whose only backend-dependent "
              "parameter is the link budget (kernel 40, emulated 128); kresolve_limit_mono proves a larger budget changes nothing "
